@@ -268,10 +268,12 @@ func init() {
 				l2(10, tierSel(tier, 1, 2), 2, 0),
 				{Name: "id-respawned-while-owner-shuts-down", Pkg: "actor", Func: "ZZ_C08", Preempt: tierSel(tier, 1, 2), Params: pm("D", 1, "F", 2, "mode", 1),
 					Witnesses: []string{"root-id-respawned-during-shutdown"}, Deadline: 60 * time.Minute, ReplayAttempts: 8},
+				{Name: "id-respawned-from-the-owner's-Stopped-handler", Pkg: "actor", Func: "ZZ_C08", Preempt: 2, Params: pm("D", 1, "F", 2, "mode", 2),
+					Witnesses: []string{"replacement-spawned"}, Deadline: 60 * time.Minute, ReplayAttempts: 8},
 			}
 		},
 		Bounds: func(tier string) string {
-			return fmt.Sprintf("sequential histories of %d operations spawn/send/stop/deliver on one id (operation symbolic); threaded: two concurrent SpawnProc of one id + %d sender(s) x 2 messages, preemption bound 2; a parent with 2 children is stopped/poisoned while another goroutine spawns the parent's id again (real inboxes, preemption bound %d): the id is only taken again once the previous owner's children have handled Stopped and are unregistered", tierSel(tier, 5, 6), tierSel(tier, 1, 2), tierSel(tier, 1, 2))
+			return fmt.Sprintf("sequential histories of %d operations spawn/send/stop/deliver on one id (operation symbolic); threaded: two concurrent SpawnProc of one id + %d sender(s) x 2 messages, preemption bound 2; a parent with 2 children is stopped/poisoned while another goroutine spawns the parent's id again (real inboxes, preemption bound %d): the id is only taken again once the previous owner's children have handled Stopped and are unregistered; a child poisoned by a third party asks its parent, from inside its Stopped handler, to spawn its id again (preemption bound 2): the replacement, once started, is registered and stays registered", tierSel(tier, 5, 6), tierSel(tier, 1, 2), tierSel(tier, 1, 2))
 		},
 		Outside:     []string{"SpawnChild (same Registry.add path)", "several ids (the registry map is keyed by id; ids do not interact)", "the window between an actor's unregistration and its own Stopped handler (a respawn accepted there is not flagged)"},
 		Assumptions: thrAssume("L1 (fake inbox) for the sequential histories, L2 (real Inbox) for the concurrent spawns"),
